@@ -19,6 +19,12 @@
 
 namespace vpay {
 
+struct Ver;
+// `Ver b{a}` is a one-element container, not a copy (cf. vpayload.hpp)
+struct VerItem {
+    const Ver* src;
+    VerItem(const Ver& o): src(&o) {}  // NOLINT (implicit on purpose)
+};
 struct Ver {
     static constexpr int W = 3;
     int id = -1;
@@ -107,6 +113,11 @@ struct Ver {
         long v = o.read_words("copy", src);
         born(v);
         verif::emit("pcp " + nm(id) + " " + nm(src) + " " + std::to_string(v));
+    }
+    Ver(std::initializer_list<VerItem> l)  // NOLINT: list construction — a fresh object with a marker value, not a copy
+    {
+        born(88800 + long(l.size()));
+        verif::emit("pcp " + nm(id) + " " + nm(-1) + " " + std::to_string(88800 + long(l.size())));
     }
     Ver& operator=(const Ver&) = delete;
     ~Ver()
